@@ -475,11 +475,13 @@ def spec_migs(spec):
 def family_native(spec, samples, Ne=None):
     """hand-written dadi program (ops of c16_impl.run_native) for the spec sampled at samples = [(deme, time)]: the
     demography more ancient than the most recent sample time, one integration per stretch between two consecutive
-    events, populations in order of appearance.  None when the shape is outside what is written out here (pulses,
-    several events at the same time, demes ending inside the window other than by a split)."""
-    if spec.get('pulses'):
-        return None
+    events, populations in order of appearance; a pulse replaces, in its destination, the listed proportion of
+    ancestry by each of its sources (proportions paired with the sources as LISTED; populations that are not sources
+    contribute 0), simultaneous pulses are applied in the order of the graph's list.  None when the shape is outside
+    what is written out here (several structural events at the same time, a structural event at the time of a pulse,
+    demes ending inside the window other than by a split)."""
     t = min(tt for _, tt in samples)
+    pulses = [p for p in spec.get('pulses', []) if p['time'] > t]
     root = spec['demes'][0]
     NeV = Ne if Ne is not None else root['epochs'][0][1]
     D = {d['name']: dict(d) for d in spec['demes']}
@@ -507,6 +509,9 @@ def family_native(spec, samples, Ne=None):
             ev.setdefault(d['start'], {})[('branch', d['parent'], n)] = [n]
     if any(len(v) > 1 for v in ev.values()):
         return None
+    if any(p['time'] in ev or len(p['sources']) != len(p['proportions']) or len(set(p['sources'])) != len(p['sources'])
+           for p in pulses):
+        return None
     for n in alive:
         e = D[n]['epochs'][-1][0]
         if e > t and not any(k[0] == 'split' and k[1] == n for v in ev.values() for k in v):
@@ -523,6 +528,8 @@ def family_native(spec, samples, Ne=None):
             for x in (st, en):
                 if x != INF and x > t:
                     bps.add(x)
+    for p in pulses:
+        bps.add(p['time'])
     bps = sorted(bps, reverse=True)
     pops = [root['name']]
     ops = [['phi_1D', root['epochs'][0][1] / NeV]]
@@ -534,6 +541,12 @@ def family_native(spec, samples, Ne=None):
                 return ['e' if fn == 'exponential' else 'l', growth_val(fn, s0, s1, ts, te, a) / NeV, growth_val(fn, s0, s1, ts, te, b) / NeV]
         raise ValueError('no epoch of %s covers [%r, %r]' % (n, a, b))
     for i, bp in enumerate(bps):
+        for p in pulses:
+            if p['time'] == bp:
+                if p['dest'] not in pops or any(x not in pops for x in p['sources']) or p['dest'] in p['sources']:
+                    return None
+                frac = dict(zip(p['sources'], p['proportions']))
+                ops.append(['pulse', pops.index(p['dest']) + 1, [frac.get(x, 0.0) for x in pops if x != p['dest']]])
         for k, ch in ev.get(bp, {}).items():
             if k[0] == 'split':
                 ip = pops.index(k[1])
@@ -751,4 +764,121 @@ def boundary_family(rng):
     add('frozen-at-other-deme-start', base([const(0.0)], [grow(0.0)], extra=[{'name': 'C', 'parent': 'B', 'start': 1.0, 'epochs': [const(0.0)]}]),
         [('A', 0.0), ('C', 0.0), ('B', 1.0)])
     add('frozen-at-deme-end', base([grow(1.0)], [grow(0.0)]), [('B', 0.0), ('A', 1.0)])
+    return out
+
+# ----------------------------------------------------------------------------------------------------------------
+# systematic family around multi-source pulses: which proportion goes with which source
+
+def listing_of(kind, xs):
+    """a list in population order -> the order in which it is LISTED in the graph"""
+    xs = list(xs)
+    if kind == 'pop':
+        return xs
+    if kind == 'reverse':
+        return xs[::-1]
+    if kind == 'rotated':
+        return xs[1:] + xs[:1]
+    raise ValueError(kind)
+
+def pulse_family(rng, rep=0):
+    """one pulse with 2 or 3 sources and pairwise different proportions, 3 or 4 demes alive (population order = order of
+    appearance A, B, C, D): {destination oldest / in the middle / youngest} x {sources listed in population order,
+    in reverse order, rotated (3 sources)} x {nothing else at the pulse time, an epoch boundary of a source, migrations
+    starting and ending, a branch, a second multi-source pulse at that very time}; with a bystander deme that is neither
+    source nor destination; the destination's parent among the sources (whenever the destination is C or D).  Each with
+    a hand-written native program (family_native: proportions paired with the sources as listed) except where a
+    structural event coincides with the pulse."""
+    out = []
+    sz = lambda: _size(rng)
+    rate = lambda: rng.choice([1 / 32, 1 / 16, 3 / 32, 1 / 8])
+    T0, T1, T2 = 3.0, 2.0, 1.5
+    def const(end, s=None):
+        s = sz() if s is None else s
+        return (end, s, s, 'constant')
+    def grow(end, fn=None, s0=None):
+        s0 = sz() if s0 is None else s0
+        return (end, s0, _size_other(rng, s0), fn or rng.choice(['exponential', 'linear']))
+    def build(nd, dest_k, src_ks, listing, variant):
+        P = ['A', 'B', 'C', 'D'][:nd]
+        tp = rng.choice([0.5, 0.75, 1.0])
+        dest = P[dest_k]; srcs_pop = [P[k] for k in sorted(src_ks)]
+        # the destination's parent is one of the sources whenever the destination is a branch (C, D)
+        parC = 'A' if (dest == 'C' and 'A' in srcs_pop) or (dest != 'C' and rng.random() < 0.5) else 'B'
+        if dest == 'C' and parC not in srcs_pop:
+            parC = 'B'
+        parD = rng.choice([x for x in srcs_pop if x != 'D'] if dest == 'D' else ['A', 'B', 'C'])
+        start = {'A': T0, 'B': T0, 'C': T1, 'D': T2}
+        parent = {'A': 'R', 'B': 'R', 'C': parC, 'D': parD}
+        N0 = sz()
+        eps = {}
+        growing = rng.choice(P)                      # one deme changes size through the pulse time
+        for n in P:
+            eps[n] = [grow(0.0)] if n == growing else [const(0.0)]
+        migs = []; extra = []
+        props = rng.sample([1 / 16, 1 / 8, 3 / 16, 1 / 4], len(srcs_pop))          # pairwise different, sum < 1
+        frac = dict(zip(srcs_pop, props))
+        lst = listing_of(listing, srcs_pop)
+        pulses = [{'sources': lst, 'dest': dest, 'time': tp, 'proportions': [frac[x] for x in lst]}]
+        if variant == 'epoch':
+            n = srcs_pop[-1]
+            g1 = grow(tp)
+            eps[n] = [g1, const(0.0, g1[2] if rng.random() < 0.5 else None)]
+        elif variant == 'mig':
+            a, b = srcs_pop[0], dest
+            migs.append({'source': a, 'dest': b, 'rate': rate(), 'start_time': tp, 'end_time': 0.0})
+            migs.append({'source': b, 'dest': srcs_pop[-1], 'rate': rate(), 'start_time': min(start[b], start[srcs_pop[-1]]), 'end_time': tp})
+        elif variant == 'branch':
+            par = dest if (dest_k + rep) % 2 == 0 else srcs_pop[0]
+            extra.append({'name': 'E', 'parent': par, 'start': tp, 'epochs': [const(0.0)]})
+        elif variant == 'pulse2':
+            d2 = srcs_pop[0]
+            s2 = [x for x in P if x != d2][:2]           # includes the first pulse's destination whenever it is among the first
+            if dest not in s2:
+                s2[-1] = dest
+            s2 = sorted(s2)
+            pr2 = rng.sample([1 / 16, 1 / 8, 3 / 16], len(s2))
+            l2 = listing_of('reverse', s2)
+            f2 = dict(zip(s2, pr2))
+            pulses.append({'sources': l2, 'dest': d2, 'time': tp, 'proportions': [f2[x] for x in l2]})
+        elif variant != 'none':
+            raise ValueError(variant)
+        demes = [{'name': 'R', 'parent': None, 'start': INF, 'epochs': [(T0, N0, N0, 'constant')]}]
+        for n in P:
+            demes.append({'name': n, 'parent': parent[n], 'start': start[n], 'epochs': eps[n]})
+        demes += extra
+        spec = {'demes': demes, 'migs': migs, 'pulses': pulses}
+        alive = P + [d['name'] for d in extra]
+        k = len(out)
+        mode = (k + rep) % 3
+        if mode == 1:
+            alive = alive[1:] + alive[:1]
+        elif mode == 2 and len(alive) > 3:
+            alive = [x for x in alive[::-1] if x != ([x for x in P if x != dest and x not in srcs_pop] + [alive[-1]])[0]]
+        samples = [(n, 0.0) for n in alive]
+        tag = 'pulse-family:%d-demes-%d-sources-dest-%s-listed-%s-%s' % (nd, len(srcs_pop), dest, listing, variant)
+        c = _fam_case(rng, spec, samples, tag, units=(k % 7 == 5), Ne=rng.choice([2.0, 1.5]) if k % 6 == 4 else None)
+        if mode != 0 or k % 2 == 0:
+            c['times'] = None                    # sampled at the end of the demes (the default)
+        out.append(c)
+    # three demes, two sources
+    V4 = ['epoch', 'mig', 'branch', 'pulse2']
+    i = 0
+    for dest_k in (0, 1, 2):
+        for listing in ('pop', 'reverse'):
+            src = [k for k in range(3) if k != dest_k]
+            build(3, dest_k, src, listing, 'none')
+            build(3, dest_k, src, listing, V4[(i + rep) % 4])
+            i += 1
+    # four demes, three sources
+    V5 = ['none', 'epoch', 'mig', 'pulse2', 'branch']
+    j = 0
+    for dest_k in (0, 1, 2, 3):
+        for listing in ('pop', 'reverse', 'rotated'):
+            build(4, dest_k, [k for k in range(4) if k != dest_k], listing, V5[(j + rep) % 5])
+            j += 1
+    # four demes, two sources and a bystander
+    for dest_k in (0, 1, 2, 3):
+        by = (dest_k + 1 + rep % 3) % 4
+        build(4, dest_k, [k for k in range(4) if k not in (dest_k, by)], 'reverse' if dest_k % 2 == 0 else 'pop',
+              ['none', 'pulse2'][dest_k % 2])
     return out
